@@ -106,6 +106,10 @@ var skeletons = []skeleton{
 	// language-tagged paragraphs with automatic / manual hyphenation: one-letter word, long words, soft hyphens
 	{"hyphens", "", `<p lang="en" style="hyphens:auto;{0}">hyphen a</p><p lang="en" style="hyphens:auto;{1}">cd <span style="{2}">extra&shy;ordinary</span> hyphenation</p><p lang="zz" style="hyphens:manual;{3}">ef&shy;gh ij</p>`, 4,
 		nil, hyphenMenu},
+	// a collapsed-border table with a header group, long enough to be split over several pages on the small geometries
+	// (the border grid of the whole table is indexed per page fragment when it is drawn)
+	{"table-pages", "", `<table style="border-collapse:collapse;{0}"><thead style="{1}"><tr><th style="border:1px solid">ab</th><th>cd</th></tr></thead><tbody><tr style="{2}"><td style="border:2px solid;{3}">ef</td><td>gh</td></tr>` +
+		strings.Repeat(`<tr><td style="border:1px solid">ij</td><td>kl</td></tr>`, 7) + `</tbody></table>`, 4, nil, tableMenu},
 }
 
 // context menus
@@ -115,6 +119,7 @@ var (
 		d("content:open-quote close-quote no-close-quote"), d("content:target-counter('#zz',page)"),
 	}
 	footnoteMenu = []decl{d("footnote-display:inline"), d("footnote-display:compact"), d("footnote-policy:line"), d("footnote-policy:block")}
+	tableMenu    = []decl{d("border-collapse:separate;border-spacing:3px"), d("caption-side:bottom"), d("empty-cells:hide"), d("table-layout:fixed;width:80px"), d("display:table-footer-group")}
 	hyphenMenu   = []decl{
 		d("hyphenate-limit-chars:2 1 1"), {css: "hyphenate-limit-chars:0 0 0", tag: "hyphenate-limit-chars:0"}, d("hyphenate-limit-zone:50%"), d("hyphenate-character:'ab'"),
 		d("hyphens:none"), d("overflow-wrap:anywhere"), d("word-break:break-all"), d("letter-spacing:-3px"),
@@ -126,6 +131,7 @@ var skTags = map[string][]string{
 	"flex": {"display:flex"}, "grid": {"display:grid"}, "columns": {"columns:2"}, "footnote": {"float:footnote"},
 	"running": {"position:running(h)"}, "inline-block": {"display:inline-block"},
 	"toc": {"content:leader('.')", "text-decoration:underline"}, "footnotes": {"float:footnote"}, "running-tree": {"position:running(h)"}, "hyphens": {"hyphens:auto"},
+	"table-pages": {"display:table", "border-collapse:collapse"},
 }
 
 type decl struct {
